@@ -1,5 +1,6 @@
 import Driver.Parse
 import FpVerif.Model.H2Tx
+import FpVerif.Spec.H2STx
 /-! Driver command `h2tx greet=<id.val;...> ev=<tok,...>`: the client transport's body writer (C12). -/
 namespace Fp.Driver
 open Fp Fp.H2Tx
@@ -32,5 +33,34 @@ def h2txRun (toks : List String) : Option String := do
   let t0 := { t0 with scratch := scratchLen t0.maxFrame }
   let evs ← (dashList (← kv toks "ev") ",").mapM txTok
   pure ("/".intercalate ((run t0 evs).map fun rs => "+".intercalate (rs.map txShow)))
+
+end Fp.Driver
+
+namespace Fp.Driver
+open Fp
+
+/-- `h2stx body=<n> ev=<tok,..>`: the peer-side specification of the server's sending under flow control -/
+def h2stxSpec (toks : List String) : Option String := do
+  let body ← (← kv toks "body").toNat?
+  let evs := dashList (← kv toks "ev") ","
+  let mut s : Spec.H2STx.S := {}
+  let mut out : Array String := #[]
+  for tk in evs do
+    let rest := (tk.drop 1).toString
+    let p := rest.splitOn "."
+    let ev : Spec.H2STx.Ev ←
+      if tk.startsWith "H" then do pure (Spec.H2STx.Ev.request (← (p.headD "").toNat?) body)
+      else if tk.startsWith "S" then do pure (Spec.H2STx.Ev.setInitial (← rest.toNat?))
+      else if tk.startsWith "W" then
+        match p with
+        | [a, b] => do pure (Spec.H2STx.Ev.windowUpdate (← a.toNat?) (← b.toNat?))
+        | _ => none
+      else if tk.startsWith "E" then do pure (Spec.H2STx.Ev.endRequest (← rest.toNat?))
+      else none
+    s := Spec.H2STx.step s ev
+    let shown := (s.strs.filter fun st => st.sent > 0 || st.ended).map fun st =>
+      s!"{st.sid}={st.sent}" ++ (if st.ended then "e" else "")
+    out := out.push (if shown.isEmpty then "-" else ";".intercalate shown)
+  pure ("/".intercalate out.toList)
 
 end Fp.Driver
